@@ -544,7 +544,6 @@ func (bkt *Bucket) incr(ki *KeyInfo, value int) int {
 		tofree.CArray.Free()
 	}
 	if errFlag {
-		cmem.DBRL.SetData.SubCount(1)
 		return 0
 	}
 
@@ -555,6 +554,9 @@ func (bkt *Bucket) incr(ki *KeyInfo, value int) int {
 	s := strconv.Itoa(value)
 	payload.Body = []byte(s)
 	payload.CalcValueHash()
+	// incr is converted into a set here; AppendRecord takes every appended value
+	// out of SetData, so count it in first
+	cmem.DBRL.SetData.AddCount(1)
 	bkt.set(ki, payload)
 	return value
 }
